@@ -177,6 +177,8 @@ func C18(c *Ctx) {
 		Wide    []byte
 		scalars []*edwards25519.Scalar
 		points  []*edwards25519.Point
+		longS   []*edwards25519.Scalar // 12 terms: calls of different lengths follow one another
+		longP   []*edwards25519.Point
 	}
 	pcB := r.Point()
 	if !validPoint(r, &pcB) {
@@ -200,6 +202,10 @@ func C18(c *Ctx) {
 		sh.Wide = append([]byte(nil), wide0...)
 		sh.scalars = []*edwards25519.Scalar{sh.S, sh.S2, sh.S}
 		sh.points = []*edwards25519.Point{sh.P, sh.Q, sh.P}
+		for i := 0; i < 12; i++ {
+			sh.longS = append(sh.longS, []*edwards25519.Scalar{sh.S, sh.S2}[i%2])
+			sh.longP = append(sh.longP, []*edwards25519.Point{sh.P, sh.Q, sh.Q}[i%3])
+		}
 		return sh
 	}
 	transcript := func(sh *shared) string {
@@ -215,6 +221,14 @@ func C18(c *Ctx) {
 		sb.Write(v.VarTimeDoubleScalarBaseMult(sharedS, sharedP, sharedS2).Bytes())
 		sb.Write(v.MultiScalarMult(scalars, points).Bytes())
 		sb.Write(v.VarTimeMultiScalarMult(scalars, points).Bytes())
+		// calls of different lengths in a row (scratch that is recycled between calls is sized
+		// by the longest one)
+		sb.Write(v.VarTimeMultiScalarMult(sh.longS[:12], sh.longP[:12]).Bytes())
+		sb.Write(v.VarTimeMultiScalarMult(sh.longS[:2], sh.longP[:2]).Bytes())
+		sb.Write(v.MultiScalarMult(sh.longS[:9], sh.longP[:9]).Bytes())
+		sb.Write(v.MultiScalarMult(sh.longS[:1], sh.longP[:1]).Bytes())
+		sb.Write(v.VarTimeMultiScalarMult(sh.longS[:1], sh.longP[:1]).Bytes())
+		sb.Write(v.VarTimeMultiScalarMult(nil, nil).Bytes())
 		sb.Write([]byte{byte(sharedP.Equal(sharedQ)), byte(sharedP.Equal(sharedP))})
 		sb.Write(sharedP.Bytes())
 		sb.Write(sharedQ.Bytes())
@@ -300,7 +314,7 @@ func C18(c *Ctx) {
 	wg.Wait()
 	for g := 0; g < G; g++ {
 		c.Eval(true, []byte("shared-operands"), []byte{byte(g), byte(G)}, []byte(wantT[:64]))
-		c.TallyN("concurrent operation calls on shared read-only operands", int64(rounds*40))
+		c.TallyN("concurrent operation calls on shared read-only operands", int64(rounds*46))
 		if gotT[g] != wantT {
 			c.Fail("a concurrent call on shared read-only operands returned something else than sequentially", map[string]any{"goroutine": g, "goroutines": G})
 		}
